@@ -700,6 +700,16 @@ def ext_binop(I, o, a, b):
     if oa is not None and ob is not None and oa.kind == "ext" and ob.kind == "ext":
         if oa.meta.get("tag") == "datetime" and ob.meta.get("tag") == "timedelta" and o == "+":
             return make_datetime(I, z3.simplify(oa.meta["ts"] + ob.meta["secs"].as_int()))
+    # a JSON value in a string concatenation: TypeError unless it is a JSON string (uninterpreted predicate), whose text is
+    # an uninterpreted function of the value
+    for x, ox, y, left in ((a, oa, b, True), (b, ob, a, False)):
+        if ox is not None and ox.kind == "ext" and ox.meta.get("tag") == "json" and isinstance(y, VStr) and o == "+":
+            used(I, "JSON value + str: TypeError unless the value is a JSON string (uninterpreted predicate); its text is an uninterpreted function of the value")
+            ok = B.opaque_bool(I, "json_is_str", [x])
+            if not I.path.branch(ok.term(), "json_str"):
+                I.raise_py("builtins.TypeError", "can only concatenate str")
+            sx = I.opaque_str("json_str", x.ref)
+            return I.str_concat(sx, y) if left else I.str_concat(y, sx)
     raise Unsupported(f"binop {o} on objects")
 
 
@@ -1297,10 +1307,22 @@ def json_dumps(I, fv, args, kw):
 
 def opaque_str_fn(tag):
     def f(I, fv, args, kw):
-        return I.opaque_str(tag, *[B.vkey(I, a) if not isinstance(a, VRef) else ("r", a.ref) for a in args])
+        return I.opaque_str(tag, *[B.deep_key(I, a) for a in args])
     return f
 
 
+def urlparse_call(I, fv, args, kw):
+    used(I, "urllib.parse.urlparse/urlencode/unquote_plus: deterministic uninterpreted functions of their arguments")
+    return ext_obj(I, "urlparse", url=args[0])
+
+
+def urlparse_attr(I, ref, o, name):
+    u = o.meta["url"]
+    return I.opaque_str("urlparse_" + name, B.vkey(I, u) if not isinstance(u, VRef) else ("r", u.ref))
+
+
+_LIB.update({"urllib.parse.urlparse": urlparse_call})
+_EXT_ATTR.update({"urlparse": urlparse_attr})
 _LIB.update({"json.loads": json_loads, "json.dumps": json_dumps,
              "secrets.token_hex": lambda I, fv, a, k: VStr(t=z3.Const(fresh("token_hex"), B.STR if hasattr(B, "STR") else None)) if False else I.opaque_str("token_hex", fresh("r")),
              "secrets.token_urlsafe": lambda I, fv, a, k: I.opaque_str("token_urlsafe", fresh("r")),
